@@ -166,7 +166,7 @@ def _model_value(v):
     return None
 
 
-def solve(assertions, timeout_s=30.0, want_smt2=False, logic="auto"):
+def solve(assertions, timeout_s=30.0, want_smt2=False, logic="auto", hard=True):
     """assertions: iterable of bool Terms (conjunction).  Returns Result."""
     low = Lowering()
     zs = []
@@ -186,7 +186,7 @@ def solve(assertions, timeout_s=30.0, want_smt2=False, logic="auto"):
         s.add(c)
     smt2 = s.to_smt2() if want_smt2 else None
     t0 = time.time()
-    status, model, reason = _check_forked(s, timeout_s)
+    status, model, reason = _check_forked(s, timeout_s) if hard else _check_here(s)
     dt = time.time() - t0
     STATS["queries"] += 1
     STATS["seconds"] += dt
